@@ -25,6 +25,7 @@ import (
 	"fmt"
 	"io"
 	"log"
+	"math"
 	"math/rand"
 	"net/http"
 	"net/url"
@@ -323,6 +324,15 @@ func (c *JSONClient) PostAndParseWithRetry(ctx context.Context, path string, req
 				if retryAfter := httpRsp.Header.Get("Retry-After"); retryAfter != "" {
 					if seconds, err := strconv.Atoi(retryAfter); err == nil {
 						b := time.Duration(seconds) * time.Second
+						if b/time.Second != time.Duration(seconds) {
+							// seconds * 1e9 overflowed: the server asked for longer than a
+							// Duration can hold, so wait as long as one can express.
+							if seconds > 0 {
+								b = math.MaxInt64
+							} else {
+								b = math.MinInt64
+							}
+						}
 						backoff = &b
 					} else if date, err := time.Parse(time.RFC1123, retryAfter); err == nil {
 						b := time.Until(date)
